@@ -135,7 +135,7 @@ seq_t dtw_warping_paths{{ suffix }}{{ suffix2 }}(seq_t *wps,
         {%- if "affinity" in suffix %}
         if (only_triu) {
             if (ci < ri) {
-                for (; ci<ri; ci++) {
+                for (; ci<ri && ci<max_ci; ci++) {
                     wps[ri_width + wpsi] = -INFINITY;
                     wpsi++;
                 }
@@ -207,7 +207,7 @@ seq_t dtw_warping_paths{{ suffix }}{{ suffix2 }}(seq_t *wps,
         {%- if "affinity" in suffix %}
         if (only_triu) {
             if (ci < ri) {
-                for (; ci<ri; ci++) {
+                for (; ci<ri && ci<max_ci; ci++) {
                     wps[ri_width + wpsi] = -INFINITY;
                     wpsi++;
                 }
@@ -279,7 +279,7 @@ seq_t dtw_warping_paths{{ suffix }}{{ suffix2 }}(seq_t *wps,
         {%- if "affinity" in suffix %}
         if (only_triu) {
             if (ci < ri) {
-                for (; ci<ri; ci++) {
+                for (; ci<ri && ci<max_ci; ci++) {
                     wps[ri_width + wpsi] = -INFINITY;
                     wpsi++;
                 }
@@ -361,7 +361,7 @@ seq_t dtw_warping_paths{{ suffix }}{{ suffix2 }}(seq_t *wps,
         {%- if "affinity" in suffix %}
         if (only_triu) {
             if (ci < ri) {
-                for (; ci<ri; ci++) {
+                for (; ci<ri && ci<l2; ci++) {
                     wps[ri_width + wpsi] = -INFINITY;
                     wpsi++;
                 }
